@@ -169,11 +169,13 @@ def main():
         },
         "engines": [
             {"name": "E1", "path": "/verif/harness", "serves_properties": ["C%02d" % k for k in range(1, 21)],
-             "kind_free_text": "in-process execution of the working tree's macro (proc_macro2), syn encoder, output re-parser; Lean model + driver in /verif/lean"},
+             "kind_free_text": "in-process execution of the working tree's macro (proc_macro2, span-locations; per-case watchdog), syn encoder, output re-parser; Lean model + driver in /verif/lean"},
+            {"name": "E2", "path": "/verif/probes", "serves_properties": sorted({"C" + m for f in os.listdir(os.path.join(ROOT, "probes", "src", "bin")) for m in __import__("re").findall(r"c(\d\d)", f)}),
+             "kind_free_text": "compile-and-run probes: Rust programs compiled by the real rustc against the checkout (path dependency) and run; negative probes must be rejected with the expected diagnostics at the expected place; nightly -Zunpretty=expanded for C20"},
         ],
         "checks": checks,
         "not_applicable": na,
-        "notes": "fix: commits in /repo and open findings are listed in /verif/known_findings.json; seeded changes in /verif/seeded.",
+        "notes": "fix: commits in /repo and open findings are listed in /verif/known_findings.json; seeded breaking changes in /verif/seeded (tools/seedall.sh), harmless changes in /verif/benign (tools/benignall.sh); DESIGN.md sections 8.1, 9, 10.",
     }
     json.dump(manifest, open(os.path.join(ROOT, "MANIFEST.json"), "w"), indent=1)
     print("claimed:", [c["property_id"] for c in checks])
